@@ -111,7 +111,7 @@ PROPS = {
                "Zap.C20.C20_concurrent_release"],
               THEORY_FILES + ["ZapProofs/Props/C20.lean"],
               partial="munmap / close(fd) are OS behaviour: observed through /proc, not modelled"),
-    "C09": _p([{"frozen": "default"}, {"frozen": "vectors", "vectors": True}, {"gen": "C09"}, {"gen": "C09", "vectors": True, "seed_offset": 13}],
+    "C09": _p([{"frozen": "default"}, {"frozen": "big"}, {"frozen": "vectors", "vectors": True}, {"gen": "C09"}, {"gen": "C09", "vectors": True, "seed_offset": 13}],
               ["ZapProofs.Props.Codec", "ZapProofs.Props.C04"],
               ["Zap.Props.Codec.footer_layout", "Zap.Props.Codec.footer_size", "Zap.Props.Codec.footer_roundtrip",
                "Zap.Props.Codec.uvarint_putUvarint", "Zap.Props.Codec.readN_putUvarints", "Zap.Props.Codec.chunk_slice",
